@@ -232,9 +232,23 @@ def main():
     m2 = re.search(r"const DEFAULT_MAX_STEPS: usize = ([0-9_]+);", bo)
     if not m1 or not m2:
         errs.append("bounds DEFAULT_TOLERANCE / DEFAULT_MAX_STEPS")
+    # --- simplex constants (C14): phase-1 iteration limit, stall-limit formula  [added by agent-std]
+    slm = open(os.path.join(SRC, "transformers/standard_linear_model.rs")).read()
+    tab = open(os.path.join(SRC, "solvers/simplex/tableau.rs")).read()
+    m3 = re.search(r"tableau\.solve_avoiding\((\d+), &artificial_variables\)", slm)
+    m4 = re.findall(r"let stall_limit = \(self\.c\.len\(\) \+ self\.a\.len\(\)\) as i64 \+ (\d+);", tab)
+    m5 = re.findall(r"let use_bland = stalls > stall_limit;", tab)
+    if not m3 or len(m4) != 2 or len(set(m4)) != 1 or len(m5) != 2:
+        errs.append("simplex phase-1 limit / stall_limit formula")
     if errs:
         print("extractor could not re-read: " + "; ".join(errs))
         return 1
+    t = "/- GENERATED by tools/extract.py from standard_linear_model.rs and tableau.rs — do not edit. -/\nnamespace Rooc.Gen\n"
+    t += f"def phase1IterationLimit : Nat := {int(m3.group(1))}\n"
+    t += f"/-- `stall_limit = c.len() + a.len() + stallLimitExtra`; Bland's rule once `stalls > stall_limit`. -/\n"
+    t += f"def stallLimitExtra : Nat := {int(m4[0])}\n"
+    t += "end Rooc.Gen\n"
+    write_if_changed(os.path.join(GEN, "Simplex.lean"), t)
     low = lambda s: s[0].lower() + s[1:]
     t = "/- GENERATED by tools/extract.py from /repo/packages/rooc/src/math/operators.rs — do not edit. -/\n"
     t += "import Rooc.Exp\nnamespace Rooc.Gen\n"
